@@ -145,7 +145,7 @@ impl HintState {
         let mut max_zone_height = Fixed::ZERO;
         let mut zone_ix = 0usize;
         // Copy blues and other blues to a combined array of top and bottom zones.
-        for blue in params.blues.values().iter().take(MAX_BLUES) {
+        for (blue_ix, blue) in params.blues.values().iter().take(MAX_BLUES).enumerate() {
             // FreeType loads blues as integers and then expands to 16.16
             // at initialization. We load them as 16.16 so floor them here
             // to ensure we match.
@@ -161,8 +161,9 @@ impl HintState {
             let zone = &mut zones[zone_ix];
             zone.cs_bottom_edge = bottom;
             zone.cs_top_edge = top;
-            if zone_ix == 0 {
-                // First blue value is bottom zone
+            if blue_ix == 0 {
+                // First blue value is bottom zone (FreeType tests the array index,
+                // not the number of zones accepted so far)
                 zone.is_bottom = true;
                 zone.cs_flat_edge = top;
             } else {
